@@ -75,12 +75,19 @@ func runC19(rc *RunCtx) {
 	}
 	sc.Hooks = true
 	sc.ObserveParse = sc.Kind != KSerial
+	sc.WrappedTimeouts = sc.Kind != KSerial && t.Choose(2) == 1
+	sc.DeadlinePort = sc.Kind == KSerial && !sc.Flusher && t.Choose(2) == 1
+	nilOpt := t.Choose(2) == 1
+	for n := sc.Then; n != nil; n = n.Then {
+		n.DeadlinePort = sc.DeadlinePort
+	}
 	a := len(rc.Sched.Rec)
 	withHooks := RunC1(rc, sc)
 	hashA, fpA, stepsA, simA, traceA := rc.Hash, rc.FP, rc.Steps, rc.SimTime, rc.Trace
 	// twin run: same scenario, same schedule choices, no hooks
 	twin := *sc
 	twin.Hooks = false
+	twin.NilHooksOption = nilOpt
 	rc2 := &RunCtx{Prop: rc.Prop, Tier: rc.Tier, Scen: rc.Scen, Sched: ReplayTape(append([]int32(nil), rc.Sched.Rec[a:]...)), Tracing: false}
 	without := RunC1(rc2, &twin)
 	rc.Hash, rc.FP, rc.Steps, rc.SimTime, rc.Trace = hashA^(rc2.Hash*31), fpA, stepsA+rc2.Steps, simA+rc2.SimTime, traceA
